@@ -33,6 +33,7 @@ import (
 	"os"
 	"path/filepath"
 	"strings"
+	"sync"
 
 	"verifharness/internal/vf"
 )
@@ -225,9 +226,13 @@ func runC06(tier string) *vf.Run {
 	for _, c := range cases {
 		classes[c.Class] = true
 	}
-	if os.Getenv("C06_ONLY") == "" && *fCase < 0 {
-		runC06Gone(run) // eighth class: the downstream server goes away (see c06_gone.go)
+	var goneWG sync.WaitGroup
+	if (os.Getenv("C06_ONLY") == "" || os.Getenv("C06_ONLY") == "gone") && *fCase < 0 {
+		// eighth class: the downstream server goes away (see c06_gone.go); runs beside the other classes
+		goneWG.Add(1)
+		go func() { defer goneWG.Done(); runC06Gone(run) }()
 	}
+	defer goneWG.Wait()
 	parallel(len(cases), run.Pick(8, 10), func(i int) {
 		c := cases[i]
 		r := runC06Case(c, fmt.Sprintf("c06-%d", c.Idx))
